@@ -89,6 +89,7 @@ type Exec struct {
 	selFork  bool
 	funcs    map[string]bool
 	clock    *Term
+	strictClock bool
 	notes    map[string]interface{}
 	hashes   []hashRec
 	pcKeys   map[[16]byte]bool
